@@ -38,3 +38,19 @@ PROPS["C09"] = dict(
     outside=["n_bits > 128 (panics: `128 - n_bits` underflow; recorded under C18)",
              "the hash functions themselves (uninterpreted)"],
 )
+
+PROPS["C11"] = dict(
+    title="Config validation accepts exactly consistent, sufficiently secure configs",
+    level="model_checking",
+    obligations=[
+        e1("C11.exact.3steps_2inner", "c11_exact_3_2", "every number an arbitrary field element (n_bits any u8); 3 step sizes, 2 inner-layer configs supplied; layout column counts 1..=128", "StarkConfig::validate(..).is_ok() <=> integer predicate of the statement", timeout=1500),
+        e1("C11.exact.2steps_1inner", "c11_exact_2_1", "as above with 2 step sizes, 1 inner layer", "validate <=> predicate", timeout=1500),
+        e1("C11.exact.0steps_0inner", "c11_exact_0_0", "as above with empty vectors", "validate <=> predicate (must reject)", timeout=600, witness=False),
+        e1("C11.exact.3steps_1inner", "c11_exact_3_1", "vector lengths inconsistent (3 steps, 1 inner)", "validate <=> predicate", timeout=1500),
+        e1("C11.exact.2steps_2inner", "c11_exact_2_2", "vector lengths inconsistent (2 steps, 2 inner: surplus inner config)", "validate <=> predicate", timeout=1500),
+        e1("C11.exact.4steps_3inner", "c11_exact_4_3", "4 step sizes, 3 inner layers", "validate <=> predicate", tier=T, timeout=3600),
+        e1("C11.exact.5steps_4inner", "c11_exact_5_4", "5 step sizes, 4 inner layers", "validate <=> predicate", tier=T, timeout=7200),
+    ],
+    outside=["more than 5 FRI layers supplied (the loop body is uniform; 6..15 layers are outside the bound)",
+             "layout column counts outside 1..=128 (none of the seven layouts)"],
+)
